@@ -1,13 +1,17 @@
-// u_vmess -- VMess address/header/body/handshake codecs under contract
+// u_vmess -- VMess address codec, body codec (codec/vmess/aead.rs) and sessions under contract
 use vstd::prelude::*;
 verus! {
+use core::mem::size_of;
 global size_of usize == 8;   // ASSUMPTION: 64-bit target
 pub mod shim {
 use vstd::prelude::*;
 //@include ../../shims/prelude.rs
 //@include ../../shims/bytes.rs
+//@include ../../shims/crypto.rs
 //@include ../../shims/net.rs
 //@include ../../shims/misc.rs
+//@include ../../shims/ss.rs
+//@include ../../shims/vmess.rs
 }
 use shim::*;
 pub mod specs {
@@ -15,12 +19,16 @@ use vstd::prelude::*;
 use super::shim::*;
 //@include ../common_addr.rs
 //@include ../common_vaddr.rs
+//@include ../common_vbody.rs
 }
 use specs::*;
+use specs::vbv::*;
 use anyhow::Result;
 type DatagramPacket = (BytesMut, Address);
-broadcast use axiom_v4_len, axiom_v6_len, axiom_string_utf8, axiom_ascii_utf8, axiom_unhex_len, axiom_string_empty;
+broadcast use axiom_v4_len, axiom_v6_len, axiom_string_utf8, axiom_ascii_utf8, axiom_unhex_len, axiom_string_empty, axiom_seal_len, axiom_open_seal, axiom_open_unique, axiom_md5_len, axiom_sha256_len, axiom_vkdf_len, lemma_path_view1;
+//@include ../common_cipher.rs
 //@include ../parts/addr.rs
 //@include ../parts/vaddr.rs
+//@include ../parts/vbody.rs
 } // verus!
 fn main() {}
